@@ -1230,8 +1230,10 @@ def translate(repo):
         pv = [{"name": n, "class": classify_private(r.events.get(n, [])),
                "events": [e[0] + ("?" if e[1] else "") for e in r.events.get(n, [])][:12]} for n in r.priv]
         wf = sorted({json.dumps([a["var"], a["crit"], a.get("form", ["whole"])]) for a in acc if a["write"]})
+        af = sorted({json.dumps([a["var"], a["crit"], a.get("form", ["whole"])]) for a in acc
+                     if a["var"] in interesting})
         out.append({"name": r.name, "line": r.line, "iv": r.iv, "shared": keep, "private": pv,
-                    "write_forms": [json.loads(x) for x in wf]})
+                    "write_forms": [json.loads(x) for x in wf], "access_forms": [json.loads(x) for x in af]})
     return {"regions": out, "hlle": hlle}
 
 
